@@ -74,6 +74,10 @@ def cases(chk):
     # than one batch pending — a limit on what one upload carries shows only then
     yield "history", {"events": ["connect", "authed", "uploadError:0", "serverAsksKeys", "disconnected", "restart", "connect", "authed", "uploadResult:0",
                                  "disconnected", "connect", "authed"], "batch": 812, "threshold": 10}
+    # the same histories on a store that was in use with the upstream release before (row numbers ahead of the key ids)
+    for i, h in enumerate(corpus):
+        if any(e.startswith("consume") for e in h):
+            yield "history", {"events": h, "legacy": 1 + i % 3}
     # batch sizes at the small numbers, at round numbers and at every integer constant of the key management's current source, each +-1: a confirmed
     # upload of that many keys leaves nothing pending, whatever the size (bookkeeping done in slices, pages, chunks)
     from lib.probes import harvest_ints
@@ -113,7 +117,7 @@ def cases(chk):
 def nontrivial(stream, case):
     if stream == "idenc":
         return ("idenc", case["n"])
-    return (tuple(case["events"]), case.get("regid"), case.get("loglevel"), case.get("batch"))
+    return (tuple(case["events"]), case.get("regid"), case.get("loglevel"), case.get("batch"), case.get("legacy"))
 
 
 class World(object):
@@ -218,6 +222,19 @@ def _run_case(chk, stream, case):
     d = chk.driver
     d.ask("pk reset %d %d" % (chk.batch, chk.threshold))
     w = World(chk, case.get("regid"))
+    if case.get("legacy"):
+        # a store that has been in use with the upstream release: that code DELETED the row of a consumed key, so the table's row counter
+        # (AUTOINCREMENT) is ahead of the key ids — every row written from now on has _id != prekey_id
+        import sqlite3
+        c = sqlite3.connect(w.dbpath())
+        try:
+            for _i in range(case["legacy"]):
+                c.execute("INSERT INTO prekeys (prekey_id, sent_to_server, record) VALUES (?, 0, NULL)", (16000000 + _i,))
+            c.execute("DELETE FROM prekeys WHERE prekey_id >= 16000000")
+            c.commit()
+        finally:
+            c.close()
+        chk.hit("legacy-store")
     sink = io.StringIO()
     npeer = 0
     authed_now = False      # first messages can only arrive on an authenticated connection
